@@ -373,6 +373,7 @@ fn check_scenario(sc: &Scenario, st: &mut Stats) -> Result<(), String> {
         }
     }
     st.class_if(interleaved, "interleaved");
+    st.class_if(sc.trains.iter().any(|t| t.cuts.first() == Some(&0)), "first-fragment-without-payload");
     if interleaved && (alias_hit_open || preempt) {
         st.nontrivial(hash_of(sc));
     }
@@ -475,7 +476,7 @@ fn pair_case(i: u64) -> Option<Scenario> {
     if a as u16 % k == b as u16 % k {
         return None;
     }
-    let t = |id: u8, lab: Lab, n: u32| TrainSpec { id, lab, ptype: 0x0800 + id as u16, pdu: Pdu { len: 20 + n + id as u32 % 7, seed: 60 + id as u32 }, cuts: vec![5, 6], ext: id % 2 == 1 };
+    let t = |id: u8, lab: Lab, n: u32| TrainSpec { id, lab, ptype: 0x0800 + id as u16, pdu: Pdu { len: 20 + n + id as u32 % 7, seed: 60 + id as u32 }, cuts: vec![if id % 3 == 0 { 0 } else { 5 }, 6], ext: id % 2 == 1 };
     Some(Scenario {
         k,
         trains: vec![t(a, Lab::Six(ALPHA6[0]), 0), t(b, Lab::Three(ALPHA3[0]), 9)],
@@ -531,7 +532,9 @@ fn gen_strategy(t: Tier) -> BoxedStrategy<Scenario> {
                 .zip(ids)
                 .map(|((lab, ptype, len, seed, cuts, ext), id)| {
                     let maxcut = (len as usize / (cuts.len() + 1)).max(1) as u16;
-                    TrainSpec { id, lab, ptype, pdu: Pdu { len, seed }, cuts: cuts.into_iter().map(|c| c.min(maxcut)).collect(), ext }
+                    // one first fragment in six carries no PDU byte at all (legal: header fields only)
+                    let empty_first = seed % 6 == 0;
+                    TrainSpec { id, lab, ptype, pdu: Pdu { len, seed }, cuts: cuts.into_iter().enumerate().map(|(i, c)| if i == 0 && empty_first { 0 } else { c.min(maxcut) }).collect(), ext }
                 })
                 .collect();
             let mut merge: Vec<u8> = vec![];
@@ -567,7 +570,7 @@ pub fn property() -> Property {
                 exhaustive: |_| true,
                 check: check_pair,
                 describe: |_t, i| pair_case(i).map(|s| serde_json::to_value(s).unwrap_or(Value::Null)).unwrap_or(Value::Null),
-                required_classes: &["interleaved", "stray-aliases-open-slot", "train-with-extensions", "walked-as-one-frame"],
+                required_classes: &["interleaved", "stray-aliases-open-slot", "train-with-extensions", "walked-as-one-frame", "first-fragment-without-payload"],
             }),
             Box::new(GenPart {
                 name: "random-interleavings",
@@ -576,7 +579,7 @@ pub fn property() -> Property {
                 fuzz_decode: Some(crate::fuzzdec::c07_case),
                 strategy: gen_strategy,
                 check: check_scenario,
-                required_classes: &["interleaved", "stray-aliases-open-slot", "first-fragment-preempts-open-train"],
+                required_classes: &["interleaved", "stray-aliases-open-slot", "first-fragment-preempts-open-train", "first-fragment-without-payload"],
             }),
         ],
     }
